@@ -127,6 +127,18 @@ CHECKS = {
          "argument (thin, claimed as exploration). Trusted: TLC, the projection.",
     technique="TLA+ step-machine model (design, deviations) + TLC-enumerated shape plan executed on real code",
     design="4 C18"),
+ "C09": dict(
+    level="model_checking",
+    text="Message.tla states Parse(Serialise(m)) = m and canonicity of the section layout (declared lengths, CRLF separators only when "
+         "attachments exist) for all (body, attachments) over {x, CR, LF, NUL} up to a bound; TLC checks it exhaustively and the same "
+         "enumeration is the test plan: every item is built through the public API with cycling recipient forms, Latin-1/ASCII "
+         "subjects and file names, dates, extra X- headers, serialised, parsed back through five reader chunkings, compared header by "
+         "header, body, attachments and accessor by accessor, and re-serialised (identity oracle judged by MessageTrace.tla); seeded "
+         "Latin-1 rich and large messages in addition. Byte layout vs. specification is a SPEC-DRIFT diagnostic.",
+    note="Q-encoding and date layouts are opaque tokens to the specification; their fidelity is the identity oracle's job. Values "
+         "with leading/trailing white space are not representable in the header format (values are trimmed) and are not generated.",
+    technique="TLA+ format model checked exhaustively; its enumeration replayed on real code with an identity oracle judged by TLC",
+    design="4 C09"),
 }
 
 NOT_YET = "check not built yet (work in progress; see DESIGN.md section 8 for the build order)"
